@@ -368,6 +368,11 @@ func objVal() *rapid.Generator[float64] {
 	})
 }
 
+// wellKnownNames: group names that coincide with OBJ keywords or with what exporters write for "no
+// name" (Maya's "default", "off" of the smoothing statement, ...): a reader or writer that gives one
+// of them a meaning loses or merges that group.
+var wellKnownNames = []string{"default", "Default", "off", "on", "null", "none", "g", "o", "v", "f", "s", "usemtl", "mtllib", "vt", "vn", "l", "p", "0", "1"}
+
 func genWR(t *rapid.T) WRCase {
 	n := rapid.IntRange(1, 4).Draw(t, "meshes")
 	c := WRCase{}
@@ -377,6 +382,9 @@ func genWR(t *rapid.T) WRCase {
 		name := rapid.StringMatching(`[A-Za-z0-9_]{1,6}`).Draw(t, "name")
 		if rapid.IntRange(0, 3).Draw(t, "punctuatedName") == 0 { // names as asset pipelines write them: rock_LOD50%, tree.001, wall(2)
 			name = rapid.StringMatching(`[A-Za-z0-9_%.()+@!,;:=~^&$'-]{1,8}`).Draw(t, "name2")
+		}
+		if rapid.Uint64().Draw(t, "wellKnownName")%8 == 0 {
+			name = rapid.SampledFrom(wellKnownNames).Draw(t, "name3")
 		}
 		for used[name] {
 			name += "_" + strconv.Itoa(i)
@@ -894,11 +902,17 @@ func genRW(t *rapid.T) RWCase {
 	}
 	form := rapid.IntRange(0, 3).Draw(t, "form0")
 	groups := 0
+	usedNames := map[string]bool{}
 	for _, s := range rapid.SliceOfN(stmt, 1, 14).Draw(t, "stmts") {
 		switch s.Kind {
 		case 1:
 			groups++
-			c.Lines = append(c.Lines, wsLine(s.Ws, "g", "grp"+strconv.Itoa(groups)))
+			gname := "grp" + strconv.Itoa(groups)
+			if wk := wellKnownNames[(s.Sel*7+s.Ws*3+groups)%len(wellKnownNames)]; (s.Sel+s.Ws+groups)%4 == 0 && !usedNames[wk] {
+				gname = wk
+			}
+			usedNames[gname] = true
+			c.Lines = append(c.Lines, wsLine(s.Ws, "g", gname))
 			form = s.Sel
 		case 2:
 			c.Lines = append(c.Lines, wsLine(s.Ws, "usemtl", "m"+strconv.Itoa(s.Sel)))
